@@ -227,7 +227,9 @@ def correspondence(pid, tier, seed):
     for si_, a in enumerate(ans):
         for (i, code, _) in lib.parse_triples(a):
             bad.append((si_ * per + i, code))
-    failing = []
+    rounding = [(g, c - 100) for g, c in bad if c >= 100]        # within 1e-9 relative: recorded, handed to the search, not a broken tie
+    bad = [(g, c) for g, c in bad if c < 100]
+    failing = [dict(case=cases[g2][1], code=100 + c2) for g2, c2 in rounding[:10]]
     if bad:
         g, code = bad[0]
         failing = [dict(case=cases[g2][1], code=c2) for g2, c2 in bad[:10]]
@@ -239,7 +241,7 @@ def correspondence(pid, tier, seed):
         dist[k] = dist.get(k, 0) + 1
     nt = sum(1 for _, r in cases if r['got'][0] != 'E')
     return dict(ok=not broken, evaluations=len(cases), nontrivial=nt, samples=[r for _, r in cases[560:563]], rule=RULE,
-                distribution=dict(outcomes=dist, libm_oracle_entries=len(orc)), broken=broken, failing_cases=failing)
+                distribution=dict(outcomes=dist, libm_oracle_entries=len(orc), rounding_level_only=len(rounding)), broken=broken, failing_cases=failing)
 
 
 # ------------------------------------------------------------------ search: the documented formulas
